@@ -50,6 +50,17 @@ def main(tier):
         run.ob("tables", "is_empty/%s has both outcomes, decided by count() == 0" % prof, empties == {True, False}, key="tables|is_empty is not a function of count()", nontrivial=("is_empty",))
         for k in EXPECT:
             run.ob("coverage", "row %s/%s explored (%s)" % (k[0], k[1], prof), k in seen, key="coverage|row %s/%s missing" % k)
+    # the id returned at creation is the id the lookups return (position + current generation)
+    alloc = e2props.load(run, profiles, ["new_node", "append_value"])
+    for (prof, entry), recs in sorted(alloc.items()):
+        n = 0
+        for rec in recs:
+            if rec["exit"] != "return" or rec.get("returned") is None or rec.get("class") != "possible":
+                continue
+            n += 1
+            run.ob("issued-ids", "%s/%s: the id handed out is the slot's current id (what get_node_id/get_node_id_at report)" % (entry, prof), rec.get("returned_id_is_current") is True,
+                   key="issued-ids|%s returns an id whose generation differs from the slot's" % entry, detail=e2props.detail_of(rec), nontrivial=(entry, rec.get("shape")))
+        run.floor("allocation cases for %s (%s)" % (entry, prof), n, 3)
     # E1: each view reads exactly the slot vector
     prog = facts.load("dev", None)
     AR = "crate::arena::Arena<T>::"
